@@ -27,7 +27,7 @@ def main():
     from . import leaf_proofs
     from ..pyvc.driver import Program
     nm = common.load_nmfu()
-    leaf_proofs.run(rep, "C16", ["WaitMatch", "DirectMatch", "CaseDirectMatch"], nm, Program(nm, common.repo_source()))
+    leaf_proofs.run(rep, "C16", ["WaitMatch", "pointing_to", "DirectMatch", "CaseDirectMatch"], nm, Program(nm, common.repo_source()))
     # the compiled (optimised) parsers on the wait programs
     ps = [{"name": p["name"], "src": p["src"]} for p in gen.wait_programs()]
     thorough = common.tier() == "thorough"
